@@ -4,10 +4,12 @@
 From Coq Require Extraction.
 From Coq Require Import ExtrOcamlBasic.
 From Utp Require Import Base.Prelude Wire.SeqNr Rtt.Rtte.
+From Utp Require Import Rx.Rx.
 
 Extraction Language OCaml.
 Extraction "model"
   Z.add Z.mul Z.sub Z.div Z.modulo Z.compare Z.of_nat Z.to_nat Z.opp Z.eqb Z.ltb Z.leb
   seq_nr_offset seq_sub seq_cmp WRAP_TOLERANCE c09_obs_ok
   rtte_default rtte_trace rtte_cfg_ok c16_ok
-  RTTE_MIN_RTO RTTE_MAX_RTO CLOCK_GRANULARITY RTTE_INITIAL_RTT.
+  RTTE_MIN_RTO RTTE_MAX_RTO CLOCK_GRANULARITY RTTE_INITIAL_RTT
+  rx_build rx_trace rx_run c04_ok.
